@@ -49,16 +49,15 @@ Definition tidy_graph (rl : rule) : Prop := is_plain (r_gk rl) = true -> ueqb (r
 
 Section RuleRows.
   Variable scfg : scfg.
-  Hypothesis Hnq : s_nquads scfg = true.
   Variable rl : rule.
   Hypothesis Hok : rule_ok true rl.
   Hypothesis Htidy : tidy rl.
   Hypothesis Htg : tidy_graph rl.
 
-  Lemma spec_rule_line_ext sr1 sr2 : (forall n, In n (rule_names rl) -> sval scfg sr1 n = sval scfg sr2 n) ->
-    spec_rule_line scfg rl sr1 = spec_rule_line scfg rl sr2.
+  Lemma doc_rule_line_ext sr1 sr2 : (forall n, In n (rule_names rl) -> sval scfg sr1 n = sval scfg sr2 n) ->
+    doc_rule_line scfg rl sr1 = doc_rule_line scfg rl sr2.
   Proof.
-    intro H. destruct Hok as (HS & HP & HO & HL & HG). unfold spec_rule_line.
+    intro H. destruct Hok as (HS & HP & HO & HL & HG). unfold doc_rule_line, spec_parts, spec_po, spec_po_gen, spec_suffix_of, rule_graph_opt.
     assert (Sub : forall ns, (forall n, In n ns -> In n (rule_names rl)) -> forall n, In n ns -> sval scfg sr1 n = sval scfg sr2 n) by (intros ns Hs n Hn; apply H; auto).
     rewrite (spec_lex_ext scfg (r_sk rl) (r_sv rl) (r_stt rl) [] sr1 sr2) by (try apply HS; apply Sub; intros n Hn; unfold rule_names; rewrite !in_app_iff; tauto).
     rewrite (spec_lex_ext scfg (r_pk rl) (r_pv rl) TIri [] sr1 sr2) by (try apply HP; apply Sub; intros n Hn; unfold rule_names; rewrite !in_app_iff; tauto).
@@ -70,22 +69,16 @@ Section RuleRows.
     destruct (spec_lex scfg (r_sk rl) (r_sv rl) (r_stt rl) [] sr2); auto.
     destruct (spec_lex scfg (r_pk rl) (r_pv rl) TIri [] sr2); auto.
     destruct (spec_lex scfg (r_ok rl) (r_ov rl) (r_ott rl) (r_ldv rl) sr2); auto.
-    assert (Esuf : match r_ld rl with
-                   | LDNone => Some []
-                   | LDLang => option_map (fun l => 64 :: l) (spec_lex scfg (r_ldk rl) (r_ldv rl) TNone [] sr1)
-                   | LDDt => option_map (fun d => 94 :: 94 :: render TIri d) (spec_lex scfg (r_ldk rl) (r_ldv rl) TIri [] sr1)
-                   end = match r_ld rl with
-                   | LDNone => Some []
-                   | LDLang => option_map (fun l => 64 :: l) (spec_lex scfg (r_ldk rl) (r_ldv rl) TNone [] sr2)
-                   | LDDt => option_map (fun d => 94 :: 94 :: render TIri d) (spec_lex scfg (r_ldk rl) (r_ldv rl) TIri [] sr2)
-                   end).
-    { destruct (r_ld rl) eqn:E; auto; rewrite ELd by discriminate; reflexivity. }
-    rewrite Esuf, Hnq. destruct (is_plain (r_gk rl)) eqn:Eg; cbn [andb]; [rewrite EG by auto|]; reflexivity.
+    assert (EG' : (if is_plain (r_gk rl) && negb (ueqb (r_gv rl) Tables.c_rml_default_graph) then opt_term TIri (spec_lex scfg (r_gk rl) (r_gv rl) TIri [] sr1) else Some [])
+                  = (if is_plain (r_gk rl) && negb (ueqb (r_gv rl) Tables.c_rml_default_graph) then opt_term TIri (spec_lex scfg (r_gk rl) (r_gv rl) TIri [] sr2) else Some []))
+      by (destruct (is_plain (r_gk rl)) eqn:Eg; cbn [andb]; [rewrite EG by auto|]; reflexivity).
+    rewrite EG'. destruct (r_ld rl) eqn:El; [reflexivity| |]; rewrite ELd by (try rewrite El; discriminate); reflexivity.
   Qed.
 
-  Lemma spec_rule_line_null sr n : In n (rule_names rl) -> sval scfg sr n = None -> spec_rule_line scfg rl sr = None.
+  Lemma doc_rule_line_null sr n : In n (rule_names rl) -> sval scfg sr n = None -> doc_rule_line scfg rl sr = None.
   Proof.
-    intros Hn Hs. destruct Hok as (HS & HP & HO & HL & HG). destruct Htidy as [TL TGn]. unfold spec_rule_line.
+    intros Hn Hs. destruct Hok as (HS & HP & HO & HL & HG). destruct Htidy as [TL TGn].
+    unfold doc_rule_line, spec_parts, spec_po, spec_po_gen, spec_suffix_of, rule_graph_opt.
     unfold rule_names in Hn. rewrite !in_app_iff in Hn.
     destruct (spec_lex scfg (r_sk rl) (r_sv rl) (r_stt rl) [] sr) eqn:Es; auto.
     destruct (spec_lex scfg (r_pk rl) (r_pv rl) TIri [] sr) eqn:Ep; auto.
@@ -98,12 +91,32 @@ Section RuleRows.
       + destruct (TL eq_refl) as [A B]. rewrite A, B in Hn. contradiction.
       + assert (Hne : LDLang <> LDNone) by discriminate. rewrite (spec_lex_null scfg _ _ TNone [] sr n (proj1 (HL Hne)) Hn Hs). reflexivity.
       + assert (Hne : LDDt <> LDNone) by discriminate. rewrite (spec_lex_null scfg _ _ TIri [] sr n (proj1 (HL Hne)) Hn Hs). reflexivity.
-    - destruct (match r_ld rl with LDNone => _ | LDLang => _ | LDDt => _ end); auto. rewrite Hnq.
+    - destruct (match r_ld rl with LDNone => _ | LDLang => _ | LDDt => _ end); auto.
       destruct (is_plain (r_gk rl)) eqn:Eg.
       + destruct (ueqb (r_gv rl) Tables.c_rml_default_graph) eqn:Ed.
         * rewrite (Htg Eg Ed) in Hn. exfalso. clear - Hn. cbn [segs_of] in Hn. induction (r_gv rl); simpl in Hn; auto.
         * cbn [andb negb]. rewrite (spec_lex_null scfg _ _ TIri [] sr n Eg Hn Hs). reflexivity.
       + destruct (TGn eq_refl) as [A B]. rewrite A, B in Hn. contradiction.
+  Qed.
+
+  (* an IRI-valued term map has a term whenever all its references have values *)
+  Lemma subst_total f segs : (forall n, In n (names segs) -> f n <> None) -> subst f segs <> None.
+  Proof.
+    induction segs as [|[c|m] l IH]; simpl; intros H E; [discriminate| |].
+    - apply IH; auto. destruct (subst f l); [discriminate|reflexivity].
+    - apply IH; [intros n Hn; apply H; now right|]. destruct (f m) eqn:Em; [|exfalso; now apply (H m (or_introl eq_refl))].
+      destruct (subst f l); [discriminate|reflexivity].
+  Qed.
+  Lemma graph_opt_total sr : (forall n, In n (names (segs_of (r_gk rl) (r_gv rl))) -> sval scfg sr n <> None) -> rule_graph_opt scfg rl sr <> None.
+  Proof.
+    intro H. unfold rule_graph_opt. destruct (is_plain (r_gk rl)) eqn:Eg; cbn [andb]; [|discriminate].
+    destruct (negb _); [|discriminate]. unfold opt_term.
+    assert (X : spec_lex scfg (r_gk rl) (r_gv rl) TIri [] sr <> None).
+    { destruct (r_gk rl); try discriminate Eg; cbn [spec_lex segs_of] in *.
+      - intro X0. discriminate X0.
+      - apply subst_total. intros n Hn. specialize (H n Hn). destruct (sval scfg sr n); [discriminate|contradiction].
+      - specialize (H (r_gv rl) (or_introl eq_refl)). destruct (sval scfg sr (r_gv rl)); [discriminate|contradiction]. }
+    destruct (spec_lex scfg (r_gk rl) (r_gv rl) TIri [] sr); [discriminate|contradiction].
   Qed.
 End RuleRows.
 
@@ -150,12 +163,16 @@ Lemma sval_raw scfg raw n :
   end.
 Proof. unfold sval. rewrite assoc_srow_of_raw. destruct (assoc n raw) as [[]|]; reflexivity. Qed.
 
+Lemma rule_ok_any nq rl : rule_ok true rl -> rule_ok nq rl.
+Proof. intros (A & B & C & D & E). unfold rule_ok. split; [exact A|]. split; [exact B|]. split; [exact C|]. split; [exact D|]. intros _. now apply E. Qed.
+
 Section Rows.
   Variables (scfg : scfg) (rl : rule) (na refs : list ustr) (raws : list rawrow).
-  Hypothesis Hnq : s_nquads scfg = true.
   Hypothesis Hna : s_na scfg = na.
   Hypothesis Hsimple : simple_rule rl.
   Hypothesis Hrefs : forall n, In n refs <-> In n (rule_names rl).
+  (* the reader delivers every referenced column *)
+  Hypothesis Hcols : forall raw n, In raw raws -> In n refs -> assoc n raw <> None.
 
   Lemma frame_row_agrees raw : raw_has_null refs raw = false -> row_has_null na refs (str_row raw) = false ->
     forall n, In n (rule_names rl) -> sval scfg (srow_of (null_to_text na (str_row raw))) n = sval scfg (srow_of_raw raw) n.
@@ -172,17 +189,39 @@ Section Rows.
     rewrite N2. unfold is_na in N2. rewrite Hna, N2. destruct c; try reflexivity; now destruct N1.
   Qed.
 
+  (* on the rows of the preprocessed frame the engine-level statement and the document-level statement coincide: there
+     every referenced column -- those of the graph map included -- holds a value *)
+  Lemma frame_row_lines raw x : In raw raws -> raw_has_null refs raw = false -> row_has_null na refs (str_row raw) = false ->
+    (spec_rule_line scfg rl (srow_of (null_to_text na (str_row raw))) = Some x <-> doc_rule_line scfg rl (srow_of_raw raw) = Some x).
+  Proof.
+    intros Hin H1 H2. destruct Hsimple as (Hok & Ht & Htg & _).
+    rewrite <- (doc_rule_line_ext scfg rl Hok (srow_of (null_to_text na (str_row raw))) (srow_of_raw raw)) by now apply frame_row_agrees.
+    destruct (s_nquads scfg) eqn:Hnq; [now rewrite doc_rule_line_nquads|].
+    rewrite (doc_rule_line_ntriples scfg rl _ x Hnq). split; [|tauto]. intro E. split; auto.
+    apply (graph_opt_total scfg rl). intros n Hn.
+    assert (Hn' : In n (rule_names rl)) by (unfold rule_names; rewrite !in_app_iff; tauto).
+    rewrite (frame_row_agrees raw H1 H2 n Hn'), sval_raw. apply Hrefs in Hn'.
+    destruct (assoc n raw) as [c|] eqn:Ec; [|exfalso; now apply (Hcols raw n Hin Hn')].
+    assert (N1 : c <> CNone /\ c <> CNaN).
+    { split; intro X; subst c; assert (Y : raw_has_null refs raw = true) by (apply raw_has_null_iff; exists n; auto); congruence. }
+    assert (N2 : mem (py_str c) (s_na scfg) = false).
+    { destruct (mem (py_str c) (s_na scfg)) eqn:X; auto. exfalso.
+      assert (Y : row_has_null na refs (str_row raw) = true)
+        by (apply row_has_null_iff; exists n, (py_str c); repeat split; auto; [rewrite ReadersP.assoc_str_row, Ec; reflexivity|rewrite <- Hna; now apply mem_In]). congruence. }
+    rewrite N2. destruct c; try discriminate; now destruct N1.
+  Qed.
+
   Theorem frame_rows_are_delivered_rows x :
     (exists r, In r (preprocess na refs raws) /\ spec_rule_line scfg rl (srow_of r) = Some x) <->
-    (exists raw, In raw raws /\ spec_rule_line scfg rl (srow_of_raw raw) = Some x).
+    (exists raw, In raw raws /\ doc_rule_line scfg rl (srow_of_raw raw) = Some x).
   Proof.
     destruct Hsimple as (Hok & Ht & Htg & _). split.
     - intros (r & Hr & Hx). apply preprocess_in in Hr as (raw & Hraw & H1 & H2 & ->). exists raw. split; auto.
-      rewrite <- Hx. symmetry. apply (spec_rule_line_ext scfg Hnq rl Hok). now apply frame_row_agrees.
+      now apply (frame_row_lines raw x Hraw H1 H2).
     - intros (raw & Hraw & Hx).
       assert (Some_all : forall n, In n refs -> exists v, sval scfg (srow_of_raw raw) n = Some v).
       { intros n Hn. destruct (sval scfg (srow_of_raw raw) n) eqn:E; eauto. exfalso.
-        rewrite (spec_rule_line_null scfg Hnq rl Hok Ht Htg (srow_of_raw raw) n (proj1 (Hrefs n) Hn) E) in Hx. discriminate. }
+        rewrite (doc_rule_line_null scfg rl Hok Ht Htg (srow_of_raw raw) n (proj1 (Hrefs n) Hn) E) in Hx. discriminate. }
       assert (H1 : raw_has_null refs raw = false).
       { destruct (raw_has_null refs raw) eqn:E; auto. apply raw_has_null_iff in E as (n & Hn & Hc). destruct (Some_all n Hn) as (v & Hv).
         rewrite sval_raw in Hv. destruct Hc as [Hc|Hc]; rewrite Hc in Hv; discriminate. }
@@ -192,7 +231,7 @@ Section Rows.
         apply mem_In in Hv. rewrite <- Hna in Hv. destruct c; try discriminate; rewrite Hv in Hw; discriminate. }
       exists (null_to_text na (str_row raw)). split.
       + apply preprocess_in. exists raw. auto.
-      + rewrite <- Hx. apply (spec_rule_line_ext scfg Hnq rl Hok). now apply frame_row_agrees.
+      + now apply (frame_row_lines raw x Hraw H1 H2).
   Qed.
 End Rows.
 
@@ -200,8 +239,7 @@ End Rows.
 Section Final.
   Variables (cfg : ecfg) (fe : fenv) (scfg : scfg) (raw : ustr -> list rawrow).
   Hypothesis Hcfg : cfg_agree cfg scfg.
-  Hypothesis Hnqc : c_nquads cfg = true.
-  Hypothesis Hnq : s_nquads scfg = true.
+  Hypothesis Hnq : c_nquads cfg = s_nquads scfg.
   Hypothesis Hna : s_na scfg = c_na cfg.
   (* what _get_data / _preprocess_data deliver for a source and a reference set, and the same rows as the Spec reads them *)
   Definition delivered (src : ustr) (refs : list ustr) : result frame := Ok (preprocess (c_na cfg) refs (raw src)).
@@ -209,22 +247,23 @@ Section Final.
 
   Theorem engine_document_is_spec_document d0 rules l :
     forallb plain_tm d0 = true -> normalise d0 = Ok rules -> (forall rl, In rl rules -> simple_rule rl) ->
+    (forall rl rw n, In rl rules -> In rw (raw (r_src rl)) -> In n (rule_names rl) -> assoc n rw <> None) ->
     materialize_rules cfg fe rules delivered = Ok l ->
     forall x, In x l <-> In x (spec_lines scfg fe d0 spec_tables).
   Proof.
-    intros Hpl Hn Hsimple Hm x.
+    intros Hpl Hn Hsimple Hcols Hm x.
     rewrite (asserted_exactly cfg fe rules delivered l Hm x).
-    rewrite (doc_spec_is_rule_spec scfg fe spec_tables Hnq d0 rules Hpl Hn x).
+    rewrite (doc_spec_is_rule_spec scfg fe spec_tables d0 rules Hpl Hn x).
     assert (Rule : forall rl ls, In rl rules -> rule_triples cfg fe rules delivered rl = Ok ls ->
-              forall y, In y ls <-> exists rw, In rw (raw (r_src rl)) /\ spec_rule_line scfg rl (srow_of_raw rw) = Some y).
+              forall y, In y ls <-> exists rw, In rw (raw (r_src rl)) /\ doc_rule_line scfg rl (srow_of_raw rw) = Some y).
     { intros rl ls Hrl Hls y. pose proof (Hsimple rl Hrl) as Hs. destruct Hs as (Hok & Ht & Htg & Hplain & Hsj & Hoj).
-      assert (Hnq' : c_nquads cfg = s_nquads scfg) by congruence.
-      assert (Hok' : rule_ok (c_nquads cfg) rl) by now rewrite Hnqc.
+      assert (Hok' : rule_ok (c_nquads cfg) rl) by now apply rule_ok_any.
       set (refs := rule_ref_set fe rules rl).
       assert (Hrefs : forall n, In n refs <-> In n (rule_names rl)) by (apply rule_ref_set_names; apply (Hsimple rl Hrl)).
-      destruct (plain_rule_is_spec cfg fe rules delivered scfg Hcfg Hnq' rl (c_na cfg) refs (raw (r_src rl)) Hna Hplain Hok'
+      destruct (plain_rule_is_spec cfg fe rules delivered scfg Hcfg Hnq rl (c_na cfg) refs (raw (r_src rl)) Hna Hplain Hok'
                   (fun n Hn => proj2 (Hrefs n) Hn) eq_refl) as [H1 _].
-      rewrite (H1 ls Hls y). apply (frame_rows_are_delivered_rows scfg rl (c_na cfg) refs (raw (r_src rl)) Hnq Hna (Hsimple rl Hrl) Hrefs). }
+      rewrite (H1 ls Hls y). apply (frame_rows_are_delivered_rows scfg rl (c_na cfg) refs (raw (r_src rl)) Hna (Hsimple rl Hrl) Hrefs).
+      intros rw n Hrw Hn0. apply (Hcols rl rw n Hrl Hrw). now apply Hrefs. }
     assert (All : forall rl, In rl rules -> r_asserted rl = true -> exists ls, rule_triples cfg fe rules delivered rl = Ok ls).
     { intros rl Hrl Ha. unfold materialize_rules in Hm. destruct (rmap_all _ (filter r_asserted rules)) as [lss|e] eqn:E; [|discriminate].
       apply rmap_all_ok in E. assert (X : In rl (filter r_asserted rules)) by (apply filter_In; auto).
